@@ -39,10 +39,10 @@ Qed.
 
 (* ------------------------------------------------------------------ send_requests and the lookups *)
 Lemma send_requests_sum : forall s reqs res s1 o1 done,
-  send_requests s reqs res = (s1, o1, done) -> stopping s = false -> length res = length reqs ->
+  send_requests s reqs res = (s1, o1, done) -> stopping s = false -> broken s = false -> length res = length reqs ->
   bsum reqs s s1 o1 done /\ all_fail o1.
 Proof.
-  unfold send_requests; intros s reqs res s1 o1 done H ST L. rewrite ST in H.
+  unfold send_requests; intros s reqs res s1 o1 done H ST BK L. rewrite ST in H.
   destruct (api s =? 0).
   - inv H. split; [|apply all_fail_no_outcome; reflexivity]. constructor.
     + apply fires_same; reflexivity.
@@ -53,9 +53,10 @@ Proof.
     pose proof (group_requests_xo _ _ _ _ _ _ _ E) as [XO OO].
     assert (W0 : pls_wf []) by (split; [constructor|intros ? ? []]).
     destruct (group_requests_sum _ _ _ _ _ _ _ E L W0) as (F & AF & W & D1 & _ & D3).
+    assert (BK2 : broken s2 = false) by (apply eq_xo_keeps in XO; destruct XO; congruence).
     destruct pls as [|p pls].
     + inv H. split; auto. constructor; auto with prod; try discriminate.
-    + inv H. split.
+    + rewrite BK2 in H. inv H. split.
       * constructor.
         -- eapply fires_trans; [exact F|]. apply fires_same; reflexivity.
         -- eapply keeps_q_trans; [apply eq_xo_keeps; exact XO|constructor; reflexivity].
@@ -70,10 +71,10 @@ Proof.
 Qed.
 
 Lemma lookups_progress_sum : forall s reqs ls s1 o1 done,
-  lookups_progress s reqs ls = (s1, o1, done) -> stopping s = false -> length ls = length reqs ->
+  lookups_progress s reqs ls = (s1, o1, done) -> stopping s = false -> broken s = false -> length ls = length reqs ->
   bsum reqs s s1 o1 done /\ all_fail o1.
 Proof.
-  unfold lookups_progress; intros s reqs ls s1 o1 done H ST L. destruct (all_done ls) as [res|] eqn:E.
+  unfold lookups_progress; intros s reqs ls s1 o1 done H ST BK L. destruct (all_done ls) as [res|] eqn:E.
   - apply all_done_length in E. eapply send_requests_sum; eauto. congruence.
   - inv H. split; [|apply all_fail_nil]. constructor.
     + apply fires_same; reflexivity.
@@ -122,17 +123,18 @@ Proof.
   apply negb_true_iff in H; auto.
 Qed.
 
-Lemma dispatch_sum : forall c s s' o, dispatch c s = (s', o) -> stopping s = false -> dsum s s' o.
+Lemma dispatch_sum : forall c s s' o, dispatch c s = (s', o) -> stopping s = false -> broken s = false -> dsum s s' o.
 Proof.
-  unfold dispatch; intros c s s' o H ST.
+  unfold dispatch; intros c s s' o H ST BK.
   destruct (map_lookups _ _ _ _) as [[s1 o1] ls] eqn:E1.
   apply map_lookups_xl in E1 as (X1 & L1 & N1);
     [|intros st x l st' o' l' Hf; inv Hf; eapply lookup_head_xl; eauto].
   rewrite map_length in N1.
   destruct (xl_facts _ _ _ X1 L1) as (F1 & K1 & NP1 & AF1 & P1 & O1). simpl in *.
   assert (ST1 : stopping s1 = false) by (destruct K1; simpl in *; congruence).
+  assert (BK1 : broken s1 = false) by (destruct K1; simpl in *; congruence).
   destruct (lookups_progress s1 (queue s) ls) as [[s2 o2] done] eqn:E2.
-  destruct (lookups_progress_sum _ _ _ _ _ _ E2 ST1 N1) as ([F2 K2 D2 M2] & AF2).
+  destruct (lookups_progress_sum _ _ _ _ _ _ E2 ST1 BK1 N1) as ([F2 K2 D2 M2] & AF2).
   assert (F12 : fires s s2 (o1 ++ o2)).
   { eapply fires_trans; [|exact F2]. eapply fires_eq_out; [|exact F1]. reflexivity. }
   assert (KQ : queue s2 = [] /\ nsend s2 = nsend s /\ stopping s2 = stopping s).
@@ -177,23 +179,23 @@ Proof.
   - unfold prod_clause; rewrite P; constructor.
 Qed.
 
-Lemma tsum_dispatch : forall c s s2 o2, can_dispatch s = true -> dispatch c s = (s2, o2) -> tsum s s2 o2.
+Lemma tsum_dispatch : forall c s s2 o2, broken s = false -> can_dispatch s = true -> dispatch c s = (s2, o2) -> tsum s s2 o2.
 Proof.
-  intros c s s2 o2 C D. destruct (can_dispatch_facts _ C) as [P ST].
-  destruct (dispatch_sum _ _ _ _ D ST). constructor; auto.
+  intros c s s2 o2 BK C D. destruct (can_dispatch_facts _ C) as [P ST].
+  destruct (dispatch_sum _ _ _ _ D ST BK). constructor; auto.
   - unfold live. rewrite d_queue0; simpl; auto.
   - intros x I O. unfold live. rewrite d_queue0; simpl; auto.
 Qed.
 
-Lemma try_tsum : forall c s s2 o2, ph s = Idle -> try_send_batch c s = (s2, o2) -> tsum s s2 o2.
+Lemma try_tsum : forall c s s2 o2, broken s = false -> ph s = Idle -> try_send_batch c s = (s2, o2) -> tsum s s2 o2.
 Proof.
-  intros c s s2 o2 P H. apply try_send_batch_spec in H as [[A B]|(A & -> & ->)].
+  intros c s s2 o2 BK P H. apply try_send_batch_spec in H as [[A B]|(A & -> & ->)].
   - eapply tsum_dispatch; eauto.
   - apply tsum_same; auto.
 Qed.
-Lemma check_tsum : forall c s s2 o2, ph s = Idle -> check_send_batch c s = (s2, o2) -> tsum s s2 o2.
+Lemma check_tsum : forall c s s2 o2, broken s = false -> ph s = Idle -> check_send_batch c s = (s2, o2) -> tsum s s2 o2.
 Proof.
-  intros c s s2 o2 P H. apply check_send_batch_spec in H as [(T & A & B)|(_ & -> & ->)].
+  intros c s s2 o2 BK P H. apply check_send_batch_spec in H as [(T & A & B)|(_ & -> & ->)].
   - eapply tsum_dispatch; eauto.
   - apply tsum_same; auto.
 Qed.
@@ -206,13 +208,13 @@ Qed.
 Lemma check_busy : forall c s, ph s <> Idle \/ stopping s = true -> check_send_batch c s = (s, []).
 Proof. unfold check_send_batch; intros c s H. destruct (threshold c s); auto. apply try_busy; auto. Qed.
 
-Lemma finish_tsum : forall c s s2 o2, finish c s = (s2, o2) ->
+Lemma finish_tsum : forall c s s2 o2, broken s = false -> finish c s = (s2, o2) ->
   exists sI o', o2 = OBatchDone :: o' /\ ph sI = Idle /\ queue sI = queue s /\ outstanding sI = outstanding s /\
                 nsend sI = nsend s /\ stopping sI = stopping s /\ tsum sI s2 o'.
 Proof.
-  unfold finish, finish0; intros c s s2 o2 H.
+  unfold finish, finish0; intros c s s2 o2 BK H.
   destruct (check_send_batch c _) as [s3 o3] eqn:E. inv H.
-  eexists; eexists; split; [reflexivity|]. splits; [..|eapply check_tsum; [|exact E]]; reflexivity.
+  eexists; eexists; split; [reflexivity|]. splits; [..|eapply check_tsum; [| |exact E]]; try reflexivity. exact BK.
 Qed.
 
 (* ------------------------------------------------------------------ a batch helper followed by the epilogue *)
@@ -235,14 +237,14 @@ Lemma prod_clause_right : forall s s' o, prod_clause s' o ->
   end.
 Proof. unfold prod_clause; intros s s' o P. destruct (ph s'); auto. Qed.
 
-Lemma batch_step : forall c B s s2 o2 done s' o',
+Lemma batch_step : forall c B s s2 o2 done s' o', broken s = false ->
   bsum B s s2 o2 done -> batch_sends (ph s) = B ->
   apply_epi c s2 (if done then Fin else NoEpi) = (s', o') ->
   stepsum s s' (o2 ++ o') /\ all_fail o'.
 Proof.
-  intros c B s s2 o2 done s' o' [F K D M] PB H. destruct K as [Q1 Q2 Q3 Q4 Q5 Q6]. destruct done; simpl in H.
+  intros c B s s2 o2 done s' o' BK [F K D M] PB H. destruct K as [Q1 Q2 Q3 Q4 Q5 Q6 Q7]. destruct done; simpl in H.
   - destruct (D eq_refl) as [CLR NP].
-    apply finish_tsum in H as (sI & ot & -> & PI & QI & OI & NI & SI & [TF TA TI TK TW TP TN TS]).
+    apply finish_tsum in H; [|congruence]. destruct H as (sI & ot & -> & PI & QI & OI & NI & SI & [TF TA TI TK TW TP TN TS]).
     assert (F2 : fires s2 s' (OBatchDone :: ot)).
     { change (OBatchDone :: ot) with ([OBatchDone] ++ ot). eapply fires_trans; [apply fires_same; [exact OI|reflexivity]|exact TF]. }
     split.
